@@ -118,20 +118,27 @@ type engine struct {
 	runner *runner
 }
 
-func (e *engine) check(dep *target) error {
+func (e *engine) check(dep *target, seen map[*target]struct{}) error {
 	if dep == e.root {
 		return CyclicDependencyError(fmt.Sprintf("cyclic dependency on %v", dep.label))
 	}
 
+	// Visit each target at most once per walk: this bounds the walk when it meets a cycle
+	// that does not include the root.
+	if _, ok := seen[dep]; ok {
+		return nil
+	}
+	seen[dep] = struct{}{}
+
 	if waiting := dep.waiting.Load(); waiting != nil {
-		return e.checkDeps(*waiting)
+		return e.checkDeps(*waiting, seen)
 	}
 	return nil
 }
 
-func (e *engine) checkDeps(deps []*target) error {
+func (e *engine) checkDeps(deps []*target, seen map[*target]struct{}) error {
 	for _, t := range deps {
-		if err := e.check(t); err != nil {
+		if err := e.check(t, seen); err != nil {
 			return err
 		}
 	}
@@ -152,7 +159,7 @@ func (e *engine) EvaluateTargets(labels ...string) []Result {
 	defer e.root.waiting.Swap(nil)
 
 	results := make([]Result, len(targets))
-	if err := e.checkDeps(targets); err != nil {
+	if err := e.checkDeps(targets, map[*target]struct{}{}); err != nil {
 		for i := range results {
 			results[i].Error = err
 			results[i].Target = nil
